@@ -433,7 +433,8 @@ def minimize_lbfgsb(
     if checkpoint is None:
         grad = sf.grad(x)
     else:
-        grad = checkpoint.jac
+        # copy: the gradient is scaled in place below and the checkpoint belongs to the caller
+        grad = np.copy(checkpoint.jac)
 
     # scale the initial gradient and consequently the objective function
     # this is optional and needs to be investigated and documented.
